@@ -3,9 +3,10 @@ From Coq Require Import List Bool Arith ZArith NArith.
 Import ListNotations.
 From HV Require Export run.C04Run spec.InsertS.
 
-(* how a HUGR of the case is given: by its history of public calls, or (builder programs, no deletions, so
-   the free stack is empty and links() is in sub-offset order) by its observation *)
-Inductive src := FromHist (rootop rootmeta : N) (cmds : list zcmd) | FromObs (o : obs).
+(* how a HUGR of the case is given: by its history of public calls, every call with the value the implementation
+   returned (the oracle of the free-index choices, model/Graph.v [step]), or (builder programs, no deletions, so
+   no index is free and links() is in sub-offset order) by its observation *)
+Inductive src := FromHist (rootop rootmeta : N) (cmds : list (zcmd * ret)) | FromObs (o : obs).
 
 Definition data_of_nobs (x : nobs) : node_data N N :=
   {| nd_op := n_op x; nd_parent := n_parent x; nd_inps := n_nin x; nd_outs := n_nout x;
@@ -18,10 +19,29 @@ Definition hugr_of_obs (o : obs) : zhugr :=
      links := fold_left (fun b l => match lm_add b (fst l) (snd l) with Some b' => b' | None => b end)
                         (o_links o) {| fwd := []; bck := [] |};
      free := []; root := o_root o |}.
-Definition build (s : src) : zhugr :=
+(* None: some call of the history is outside C04's guard (the pair is outside this property's domain) *)
+Fixpoint run_in_guard (h : zhugr) (cs : list (zcmd * ret)) : option zhugr :=
+  match cs with
+  | [] => Some h
+  | (c, rt) :: r => let '(h', rt', _) := step rt h c in if in_guard h c rt' then run_in_guard h' r else None
+  end.
+Definition build (s : src) : option zhugr :=
   match s with
-  | FromHist o m cs => fold_left (fun h c => fst (fst (step h c))) cs (init o m)
-  | FromObs o => hugr_of_obs o
+  | FromHist o m cs => run_in_guard (init o m) cs
+  | FromObs o => Some (hugr_of_obs o)
+  end.
+(* the same judged by the sequential specification on the implementation's own return values: false when a call
+   is outside the guard; a call whose return value the specification rejects (a live index handed out again) is a
+   broken store, not a call outside the guard: the pair is then judged as it stands *)
+Fixpoint spec_accepts (g : zgraph) (cs : list (zcmd * ret)) : bool :=
+  match cs with
+  | [] => true
+  | (c, rt) :: r => match s_step g c rt with Next g' => spec_accepts g' r | OutOfScope => false | Bad => true end
+  end.
+Definition src_in_guard (s : src) (o : obs) : bool :=
+  match s with
+  | FromHist ro rm cs => spec_accepts (s_init (o_root o) ro rm) cs
+  | FromObs _ => true
   end.
 
 (* the abstract graph an observation describes *)
@@ -41,18 +61,22 @@ Record case := {
   k_wires : option (list port * (option Z * option Z));     (* Some: through a builder wrapper *)
   k_map : list (nid * nid); k_res : res; k_obsA' : obs; k_obsB' : obs }.
 
+(* the indices the copies receive are not prescribed by the property: the returned mapping is the oracle of the
+   model's choices, followed where admissible (a free index of A); the model's mapping is then compared with it *)
 Definition corr (c : case) : bool :=
-  let A := build (k_A c) in
-  let B := build (k_B c) in
-  obs_eqb (k_obsA c) (model_obs (k_uA c) A) && obs_eqb (k_obsB c) (model_obs (k_uB c) B) &&
-  let '(A', mp, r) :=
-    match k_wires c, k_parent c with
-    | Some (ws, (ki, ko)), Some p => insert_wrapped A B p ws ki ko
-    | _, _ => insert_hugr A B (k_parent c)
-    end in
-  res_eqb (k_res c) r &&
-  (match r with Ok => perm_eqb (pair_eqb Nat.eqb Nat.eqb) (k_map c) mp | _ => true end) &&
-  obs_eqb (k_obsA' c) (model_obs (k_uA c) A') && obs_eqb (k_obsB' c) (model_obs (k_uB c) B).
+  match build (k_A c), build (k_B c) with
+  | Some A, Some B =>
+      obs_eqb (k_obsA c) (model_obs (k_uA c) A) && obs_eqb (k_obsB c) (model_obs (k_uB c) B) &&
+      let '(A', mp, r) :=
+        match k_wires c, k_parent c with
+        | Some (ws, (ki, ko)), Some p => insert_wrapped (k_map c) A B p ws ki ko
+        | _, _ => insert_hugr (k_map c) A B (k_parent c)
+        end in
+      res_eqb (k_res c) r &&
+      (match r with Ok => perm_eqb (pair_eqb Nat.eqb Nat.eqb) (k_map c) mp | _ => true end) &&
+      obs_eqb (k_obsA' c) (model_obs (k_uA c) A') && obs_eqb (k_obsB' c) (model_obs (k_uB c) B)
+  | _, _ => true
+  end.
 
 (* the wires of a wrapper call as links of A': one link per wire into the image of B's root, and the state order
    links that accompany wires from enclosing regions (spec/InsertS.v wires_extra, read off A's observation) *)
@@ -66,14 +90,15 @@ Definition wires_links (c : case) : list (port * port) :=
   end.
 
 (* monitor: all observations are self-consistent (every query reads the same multigraph), B is not modified,
-   and (A, B, A', mapping) satisfy isomorphism + frame.  Outside the guard (dead parent, a wire whose source has
-   no sibling among the ancestors of the inserted root) nothing is asked. *)
+   and (A, B, A', mapping) satisfy isomorphism + frame.  Outside the guard (a history of A or B that leaves C04's
+   guard, dead parent, a wire whose source has no sibling among the ancestors of the inserted root) nothing is asked. *)
 Definition mon (c : case) : bool :=
   let gA := graph_of_obs (k_uA c) (k_obsA c) in
   let gB := graph_of_obs (k_uB c) (k_obsB c) in
   let gA' := graph_of_obs (k_uA c) (k_obsA' c) in
   let p := match k_parent c with Some p => p | None => a_root gA end in
-  if a_live gA p && match k_wires c with Some (ws, _) => wires_guard gA p ws | None => true end then
+  if src_in_guard (k_A c) (k_obsA c) && src_in_guard (k_B c) (k_obsB c) &&
+     a_live gA p && match k_wires c with Some (ws, _) => wires_guard gA p ws | None => true end then
     res_eqb (k_res c) Ok &&
     consistent (k_uA c) (k_obsA c) && consistent (k_uB c) (k_obsB c) && consistent (k_uA c) (k_obsA' c) &&
     obs_eqb (k_obsB c) (k_obsB' c) &&
